@@ -55,15 +55,15 @@ Qed.
 
 (* With the repair of F11: whatever the interleaving, once a Stop has returned and every
    call and goroutine has ended, the model's observation satisfies the property checker. *)
-Theorem model_passes_checker acts s :
-  run true init acts = Some s -> stop_returned s = true -> quiescent s = true ->
+Theorem model_passes_checker f4 acts s :
+  run (mkFx true f4) init acts = Some s -> stop_returned s = true -> quiescent s = true ->
   check_router (obs_of_state s) = [].
 Proof.
   intros R Hr Q. apply check_router_iff.
-  destruct (all_closed _ _ R Q) as [AC W].
+  destruct (all_closed _ _ _ R Q) as [AC W].
   destruct (registered_closed_at_return _ _ _ R Hr) as (Hc & Hl & Hw & _ & _ & NL).
   pose proof (reachable_inv _ _ _ R) as I.
-  assert (Z : count_live (conns s) = 0) by (rewrite <- (inv_wg _ _ I); auto).
+  assert (Z : count_live (conns s) = 0) by (apply busy_zero_live; rewrite <- (inv_wg _ _ I); auto).
   unfold quiescent in Q. apply andb_true_iff in Q as [Q Qc]. apply andb_true_iff in Q as [Qs Qt].
   unfold router_prop, obs_of_state; cbn. rewrite Hr, Z, Hl. repeat split; auto.
   - apply (inv_late _ _ I).
@@ -79,7 +79,7 @@ Qed.
 (* the pinned model fails it on the three F11 witnesses, on clause 2 exactly *)
 Theorem pinned_fails_checker :
   forall acts, In acts [witness_out; witness_in; witness_after] ->
-  exists s, run false init acts = Some s /\ check_router (obs_of_state s) = [2].
+  exists s, run (mkFx false false) init acts = Some s /\ check_router (obs_of_state s) = [2].
 Proof.
   intros acts [<-|[<-|[<-|[]]]]; eexists; (split; [vm_compute; reflexivity|]); vm_compute; reflexivity.
 Qed.
@@ -99,7 +99,7 @@ Lemma tries_reach fx l : forall s, (exists acts, run fx init acts = Some s) ->
   exists acts, run fx init acts = Some (tries fx s l).
 Proof. induction l as [|a r IH]; intros s H; cbn; auto. apply IH. now apply attempt_reach. Qed.
 
-Definition Reach (fx : bool) (s : state) : Prop := exists acts, run fx init acts = Some s.
+Definition Reach (fx : fixes) (s : state) : Prop := exists acts, run fx init acts = Some s.
 
 Lemma reach_step fx s a s' : Reach fx s -> step fx s a = Some s' -> Reach fx s'.
 Proof.
@@ -142,7 +142,7 @@ Qed.
 
 Lemma do_macro_reach fx tcp x m : Reach fx (xs x) -> Reach fx (xs (do_macro fx tcp x m)).
 Proof.
-  intros R. destruct m as [p|p|p|p|t|p|p|p|c|c|c m|c m|c| | |t|c]; cbn [do_macro xs].
+  intros R. destruct m as [p|p|p|p|t|p|p|p|p|c|c|c m|c m|c| | |t|c]; cbn [do_macro xs].
   - apply sender_run_reach. now apply attempt_reach.
   - apply sender_run_reach. now apply attempt_reach.
   - apply sender_run_reach. now apply attempt_reach.
@@ -150,10 +150,11 @@ Proof.
   - unfold sender_release. destruct (nth_error (senders (xs x)) t) as [[| | | |]|]; auto.
     apply sender_run_reach. now apply tries_reach.
   - destruct (step fx (xs x) (AIncoming p)) as [s1|] eqn:E; cbn [xs]; auto.
-    unfold incoming_rest. apply tries_reach. apply attempt_reach. eapply reach_step; eauto.
+    unfold incoming_rest. apply tries_reach. eapply reach_step; eauto.
   - destruct (step fx (xs x) (AIncoming p)) as [s1|] eqn:E; cbn [xs]; auto.
-    apply attempt_reach. eapply reach_step; eauto.
+    apply tries_reach. eapply reach_step; eauto.
   - now apply attempt_reach.
+  - now apply tries_reach.
   - unfold incoming_rest. now apply tries_reach.
   - now apply tries_reach.
   - now apply tries_reach.
